@@ -14,56 +14,58 @@ EXTENDS Naturals, Sequences, TLC, Json, IOUtils
 
 Rec == ndJsonDeserialize(IOEnv.TRACE)
 
-VARIABLES mf, mi, facts, iters, exhausted, l,
+VARIABLES mf, mi, mt, cost, elapsed, facts, iters, exhausted, l,
           dev      \* deviations: trace positions whose event is NOT a step of Limits.tla
-tvars == <<mf, mi, facts, iters, exhausted, l, dev>>
+tvars == <<mf, mi, mt, cost, elapsed, facts, iters, exhausted, l, dev>>
 
-TraceInit == mf = 0 /\ mi = 0 /\ facts = 0 /\ iters = 0 /\ exhausted = FALSE /\ l = 1 /\ dev = <<>>
+TraceInit == mf = 0 /\ mi = 0 /\ mt = 0 /\ cost = 0 /\ elapsed = 0 /\ facts = 0 /\ iters = 0 /\ exhausted = FALSE /\ l = 1 /\ dev = <<>>
 
 IsEvent(e) == l <= Len(Rec) /\ Rec[l].ev = e /\ l' = l + 1
 
 TScenario ==
     /\ IsEvent("scenario")
-    /\ mf' = Rec[l].mf /\ mi' = Rec[l].mi /\ facts' = Rec[l].levels[1] /\ iters' = 0 /\ exhausted' = FALSE
+    /\ mf' = Rec[l].mf /\ mi' = Rec[l].mi /\ mt' = Rec[l].mt /\ cost' = Rec[l].cost /\ elapsed' = 0
+    /\ facts' = Rec[l].levels[1] /\ iters' = 0 /\ exhausted' = FALSE
     /\ UNCHANGED dev
 
-TCall == IsEvent("call") /\ UNCHANGED <<mf, mi, facts, iters, exhausted, dev>>
+TCall == IsEvent("call") /\ UNCHANGED <<mf, mi, mt, cost, elapsed, facts, iters, exhausted, dev>>
 
 \* a pass that found nothing new: allowed any time (it is how the fixpoint is detected)
 TIterIdle ==
     /\ IsEvent("iter") /\ Rec[l].after = Rec[l].before
-    /\ UNCHANGED <<mf, mi, facts, iters, exhausted, dev>>
+    /\ UNCHANGED <<mf, mi, mt, cost, elapsed, facts, iters, exhausted, dev>>
 
 \* a growing pass = the Pass action of Limits.tla: only while not exhausted and within
 \* the cumulative budgets
-PassAllowed == ~exhausted /\ iters < mi /\ facts <= mf /\ Rec[l].before = facts
+PassAllowed == ~exhausted /\ iters < mi /\ facts <= mf /\ elapsed < mt /\ Rec[l].before = facts
 
 TIterGrow ==
     /\ IsEvent("iter") /\ Rec[l].after > Rec[l].before
-    /\ facts' = Rec[l].after /\ iters' = iters + 1
+    /\ facts' = Rec[l].after /\ iters' = iters + 1 /\ elapsed' = elapsed + cost
     /\ dev' = IF PassAllowed THEN dev ELSE Append(dev, l)
-    /\ UNCHANGED <<mf, mi, exhausted>>
+    /\ UNCHANGED <<mf, mi, mt, cost, exhausted>>
 
 OkAllowed == ~exhausted /\ facts <= mf /\ iters <= mi /\ Rec[l].iterations = iters /\ Rec[l].facts = facts
 
 TReturnOk ==
     /\ IsEvent("return") /\ Rec[l].outcome = "ok"
     /\ dev' = IF OkAllowed THEN dev ELSE Append(dev, l)
-    /\ UNCHANGED <<mf, mi, facts, iters, exhausted>>
+    /\ UNCHANGED <<mf, mi, mt, cost, elapsed, facts, iters, exhausted>>
 
-LimitAllowed == exhausted \/ facts >= mf \/ iters >= mi
+\* a run-limit return must also report the passes actually performed (cumulative accounting)
+LimitAllowed == (exhausted \/ facts >= mf \/ iters >= mi \/ elapsed >= mt) /\ Rec[l].iterations = iters
 
 TReturnLimit ==
     /\ IsEvent("return") /\ Rec[l].outcome = "limit"
     /\ exhausted' = TRUE
     /\ dev' = IF LimitAllowed THEN dev ELSE Append(dev, l)
-    /\ UNCHANGED <<mf, mi, facts, iters>>
+    /\ UNCHANGED <<mf, mi, mt, cost, elapsed, facts, iters>>
 
 \* any other outcome (panic, unexpected error) is a deviation
 TReturnOther ==
     /\ IsEvent("return") /\ Rec[l].outcome \notin {"ok", "limit"}
     /\ dev' = Append(dev, l)
-    /\ UNCHANGED <<mf, mi, facts, iters, exhausted>>
+    /\ UNCHANGED <<mf, mi, mt, cost, elapsed, facts, iters, exhausted>>
 
 TraceNext == TScenario \/ TCall \/ TIterIdle \/ TIterGrow \/ TReturnOk \/ TReturnLimit \/ TReturnOther
 TraceSpec == TraceInit /\ [][TraceNext]_tvars
